@@ -26,8 +26,8 @@ LEVEL = ("For generated aggregates (1-4 sites, with/without a vibrational mode) 
          "read after all contexts are closed equals the state requested outside.")
 NOTE = ("The 'thermal' condition does not fix its basis (the code says so); its Boltzmann clause is asserted for requests "
         "made outside any context (site basis). With vibrational levels only 'thermal', the weak-coupling state and "
-        "get_thermal_ReducedDensityMatrix are generated (the strong-coupling branch indexes reorganisation energies "
-        "by electronic site). Degenerate lowest levels are excluded from the T = 0 clause.")
+        "get_thermal_ReducedDensityMatrix and the strong-coupling state (vibronic diagonal energies minus the site's "
+        "reorganisation energy) have a Boltzmann clause. Degenerate lowest levels are excluded from the T = 0 clause.")
 RULE = ("case = gens.system_spec(N 1..4) + optional mode + temperature code (0 | 10^(k/10) K | factor x underflow edge) "
         "+ condition + requesting context. Non-trivial: T > 0 with >= 2 distinct excited energies, or T within a factor "
         "3 of the underflow edge.")
@@ -53,8 +53,6 @@ def _case(draw):
         for j in range(i, dim):
             other[i][j] = other[j][i] = draw(st.integers(-5, 5))
     cond = draw(st.sampled_from(CONDS))
-    if mode is not None and cond in ("tes_strong",):
-        cond = "tes_weak"
     return {"spec": spec, "tcode": tcode, "mode": mode, "cond": cond, "ctx": draw(st.sampled_from(CTXS)),
             "other": other}
 
@@ -134,7 +132,8 @@ def check_case(case, ctx):
     ok, agg0 = guarded(ctx, "build", lambda: _make(qr, case))
     if not ok:
         return
-    ok, ref = guarded(ctx, "request", lambda: numpy.array(_request(qr, agg0, cond, T).data), cond + "/outside", T=T)
+    ok, ref = guarded(ctx, "request", lambda: numpy.array(_request(qr, agg0, cond, T).data),
+                      cond + "/outside" + ("/vibronic" if case["mode"] else ""), T=T)
     if not ok:
         return
     dimtot = ref.shape[0]
@@ -158,6 +157,20 @@ def check_case(case, ctx):
             _boltz(ctx, pops[1:], E, T, kT, "strong/site-basis")
             ctx.bound("off-diagonal-zero", float(numpy.max(numpy.abs(ref - numpy.diag(numpy.diag(ref))))), 1e-12,
                       where="strong")
+        elif cond == "tes_strong" and not electronic:
+            # vibronic aggregate: every state of the one-exciton band carries the reorganisation energy of its site
+            with qr.energy_units("int"):
+                Hd = numpy.real(numpy.diag(numpy.array(agg0.get_Hamiltonian().data)))
+            E = []
+            for a in range(nb0, nb0 + int(agg0.Nb[1])):
+                elsig = tuple(int(x) for x in agg0.vibsigs[a][0])
+                site = elsig.index(1)
+                E.append(Hd[a] - spec["bath"][site]["reorg"] * orc.CM2INT)
+            E = numpy.array(E)
+            distinct = len(set(numpy.round(E, 9))) >= 2
+            pops = numpy.real(numpy.diag(ref))
+            ctx.bound("ground-state-empty", float(numpy.max(numpy.abs(pops[:nb0]))), 1e-12, where=tag)
+            _boltz(ctx, pops[nb0:nb0 + len(E)], E, T, kT, "strong/vibronic-site-basis")
         elif cond == "tes_weak":
             # the returned object, presented in the exciton basis
             with qr.energy_units("int"):
@@ -191,7 +204,7 @@ def check_case(case, ctx):
             with qr.eigenbasis_of(op):
                 rho = _request(qr, agg, cond, T)
             return numpy.array(rho.data)          # read after the context is closed
-        ok, got = guarded(ctx, "request", inside, tag, T=T)
+        ok, got = guarded(ctx, "request", inside, tag + ("/vibronic" if case["mode"] else ""), T=T)
         if ok and numpy.all(numpy.isfinite(ref)):
             if not numpy.all(numpy.isfinite(got)):
                 ctx.fail("finite", tag)
